@@ -733,7 +733,7 @@ fn run_engine(cli: &Cli, report: &Report) {
         }
     }
     report.set_extra("single_call_cases", json!(cases.len()));
-    cases.par_iter().enumerate().for_each(|(i, (p, s))| check_script(report, s, &ctx(*p), &mem0, i % 16 == 0));
+    cases.par_iter().enumerate().for_each(|(i, (p, s))| check_script(report, s, &ctx(*p), &mem0, !quick || i % 16 == 0));
     // ---- layer 2: contexts that single calls do not reach ------------------------------------
     let mut special: Vec<(Params, Script)> = vec![];
     let c = |f: F, a: &[u64]| Call { f, args: a.iter().map(|x| Arg::C(*x)).collect() };
@@ -827,7 +827,7 @@ fn main() {
     report.sample(json!({"params": "P4", "script": ["state_lookup_entry(0x100, 0x1)", "state_lookup_entry(0x100, 0x2)", "state_iterate_prefix(0x100, 0x1)", "state_entry_read(result[0], 0xffff, 0x5, 0x1)"], "expected": "trap (destination window leaves the linear memory)"}));
     report.sample(json!({"params": "P4", "script": ["write_output(0x0, 0x4000, 0x0)", "write_output(0x200, 0x2, 0x3fff)"], "expected": "second call writes 1 byte (return value capped at 16384 under P4), 2 bytes under P7"}));
     report.set_technique("exhaustive enumeration: every v1 host function x the full cartesian product of a hostile argument alphabet per parameter role (pointers at 0 / in range / last byte / one past / 2^31 / 2^32-1, lengths 0..2^32-1 at the memory, log and parameter boundaries, offsets around every object size, valid / stale / foreign / sentinel handles, every invoke tag and one undefined) after a common state prefix, under protocol parameter sets P4..P7; targeted limit contexts; all scripts of <= 2 (thorough 3) calls over a reduced alphabet; each compiled to a real contract, run through invoke_receive and compared with a reference model of the documented host interface; interrupts answered and resumed through resume_receive (one and two interrupts x answers x carried-over effects x follow-up calls); recursive nesting programs around the 1024-frame limit with interrupts at stage boundaries on v1 receive / v1 init / v0; the same product scheme for the 19 v0 host functions");
-    report.set_rule("one case = one generated contract executed once (plus, for a sixteenth of the successful single calls and all context cases, twice more with the exact and the exact-minus-one energy budget): the outcome (success with return value, logs and final state / trap / out of energy / interrupt with payload) must be one the model allows, no panic, and every completed host call charges at least its scheduled energy; for answered interrupts also the payload, the logs handed over, the state-changed flag and the value returned to the contract; a nesting program ends normally iff its deepest nesting is <= 1024");
+    report.set_rule("one case = one generated contract executed once (plus, for a sixteenth - thorough: all - of the successful single calls and all context cases, twice more with the exact and the exact-minus-one energy budget): the outcome (success with return value, logs and final state / trap / out of energy / interrupt with payload) must be one the model allows, no panic, and every completed host call charges at least its scheduled energy; for answered interrupts also the payload, the logs handed over, the state-changed flag and the value returned to the contract; a nesting program ends normally iff its deepest nesting is <= 1024");
     report.assume("secp256k1 verification is only exercised with invalid signatures (the engine is built against a stand-in for the uncached secp256k1 crate); ed25519 goes through ed25519-dalek in both the stand-in and the model");
     report.assume("energy the model cannot bound from the documentation (trie traversal steps) is treated as a lower bound: charged >= scheduled");
     report.finish(true, json!({"functions": ALL.len(), "tier": format!("{:?}", cli.tier)}));
